@@ -1034,6 +1034,12 @@ def Module_cast_expr(self, op, sty, sv, dty):
     ct = self.ct
     if op in ('bitcast', 'addrspacecast'):
         if sty.k == 'ptr' and dty.k == 'ptr':
+            if sty.elem is not None and self.is_union(sty.elem) and not (dty.elem is not None and self.is_union(dty.elem)) \
+                    and re.match(r'^v\d+$', sv):
+                # pointer to a union (a byte-array wrapper) viewed as pointer to one of its members: go through the byte
+                # array like gep_expr does; a store through the cast wrapper pointer into an uninitialised union does
+                # not fold when read back
+                return '((%s)((*%s).u + 0))' % (ct(dty), sv)
             return '((%s)%s)' % (ct(dty), sv)
         if sty.k == 'fp' and dty.k == 'int':
             return {'double': 'll_d2i', 'float': 'll_f2i'}[sty.name] + '(%s)' % sv
